@@ -2,7 +2,7 @@
    Only property theorems, each closed by quoting lemmas proved elsewhere, and Print Assumptions.
    Generated from Properties/bodies/C08.v.in by mkprop.py (shared preamble: hdr.txt, sec.txt). *)
 From Coq Require Import Arith NArith Bool List Lia.
-Require Import Canon SemTk CountTk TableProto BddBase BddIte BddCR BddSat BddCof BddCof2 BddCtor BddEval BddPaths BddPathsCount BddReach BddExport BddDot BddMinimal BddTerm Glue Machine Reachable OpSpecs.
+Require Import Canon SemTk CountTk TableProto BddBase BddIte BddCR BddSat BddCof BddCof2 BddCtor BddEval BddPaths BddPathsCount BddReach BddExport BddDot BddMinimal BddTerm BddTerm2 Glue Machine Reachable OpSpecs FuelMono FuelMono2.
 Import ListNotations.
 Local Open Scope N_scope.
 
@@ -61,6 +61,16 @@ Section C08.
     exists bound, forall fuel, (bound <= fuel)%nat -> mstep fuel mr (HSubst f v b) = None ->
       exists s', sext (store mr) s' /\ Inv s' /\ storage_full node (tbl s').
   Proof. exact (subst_step_fuel_bound nhash khash bmask cmask0 smask0 capacity cap_ok mr f rf v b). Qed.
+  Theorem C08_substitute_multi_fuel_bound mr f rf vals :
+    reachable mr -> liveh mr f rf ->
+    exists bound, forall fuel, (bound <= fuel)%nat -> mstep fuel mr (HSubstM f vals) = None ->
+      exists s', sext (store mr) s' /\ Inv s' /\ storage_full node (tbl s').
+  Proof. exact (substm_step_fuel_bound nhash khash bmask cmask0 smask0 capacity cap_ok mr f rf vals). Qed.
+  Theorem C08_cofactor_cube_fuel_bound mr f rf cube :
+    reachable mr -> liveh mr f rf ->
+    exists bound, forall fuel, (bound <= fuel)%nat -> mstep fuel mr (HCofCube f cube) = None ->
+      exists s', sext (store mr) s' /\ Inv s' /\ storage_full node (tbl s').
+  Proof. exact (cofcube_step_fuel_bound nhash khash bmask cmask0 smask0 capacity cap_ok mr f rf cube). Qed.
 End C08.
 
 Print Assumptions C08_substitute.
@@ -72,3 +82,5 @@ Print Assumptions C08_unchanged_when_independent.
 Print Assumptions C08_accessors.
 Print Assumptions C08_top_cofactors.
 Print Assumptions C08_substitute_fuel_bound.
+Print Assumptions C08_substitute_multi_fuel_bound.
+Print Assumptions C08_cofactor_cube_fuel_bound.
